@@ -128,6 +128,8 @@ class FakePyAudio(object):
     self.world.managers.append(self)
 
   def open(self, *args, **kwargs):
+    if kwargs.get("reject_me"):
+      raise ValueError("backend rejects this stream configuration")
     self.world.device_call("open")
     st = FakePaStream(self, kwargs)
     self._streams.add(st)
